@@ -8,6 +8,7 @@ import json
 from .common import LEAN, SRC, VERIF, add_failure, bump
 
 GEN_FILE = LEAN / "CogentModel" / "Gen" / "C10Registry.lean"
+GEN_GETCLASS = LEAN / "CogentModel" / "Gen" / "C10GetClass.lean"
 GEN_RICH = LEAN / "CogentModel" / "Gen" / "C10Rich.lean"
 
 
@@ -26,6 +27,13 @@ def generate(ctx):
     if lean is not None and T.write_if_changed(GEN_FILE, lean):
         ctx.notes.append("Gen/C10Registry.lean was rewritten (registry / dispatch loop / emitting classes differ from the last generated text)")
     out = [f"c10_registry2lean: {p}" for p in problems]
+    try:
+        gc, gcp = T.translate_get_class(SRC)
+    except (T.TranslationError, SyntaxError, OSError) as e:
+        gc, gcp = None, [str(e)]
+    if gc is not None and T.write_if_changed(GEN_GETCLASS, gc):
+        ctx.notes.append("Gen/C10GetClass.lean was rewritten (_get_class differs from the last generated text)")
+    out += [f"c10_registry2lean: {p}" for p in gcp]
     # the integer / decision part of the three view exporters
     from translator import c10_rich2lean as R
 
@@ -168,3 +176,84 @@ def registry_corr(ctx, out):
             bump(out, "registry_instance", str(by_table.get(t)))
             if t not in known:
                 add_failure(out, "corr", "a live object writes a type string the translator did not derive", dict(family=fam), "one of the translated strings", t, confirmed=False)
+
+
+def _canon(d):
+    return json.dumps(d, sort_keys=True, default=str)
+
+
+def coll_corr(ctx, out):
+    """collection level rich dict = per-row rich dicts (Model/CollRich.seqsDict) on real old-style collections / alignments after
+    their histories: dict keys in row order, each entry = that row's own to_rich_dict(), and the deserialised collection has the
+    same names in the same order"""
+    from cogent3.util.deserialise import deserialise_object
+
+    from . import c10_hist as H
+
+    rng = ctx.subrng("collrich")
+    cases = []
+    for _ in range(ctx.budget(40, 600)):
+        rec = H.gen_coll(rng)
+        try:
+            c = H.build(copy.deepcopy(rec), ctx.scratch)
+            rows = list(c.seqs)
+            names = [s.name for s in rows]
+            rd = c.to_rich_dict()
+            per_row = [_canon(s.to_rich_dict()) for s in rows]
+            back = deserialise_object(json.loads(json.dumps(rd)))
+            real = dict(keys=list(rd["seqs"]), entries=[_canon(v) for v in rd["seqs"].values()], back_names=list(back.names))
+        except Exception as e:
+            bump(out, "coll_rich", f"skipped:{type(e).__name__}")
+            continue
+        cases.append((rec, names, per_row, real))
+    model = ctx.driver.batch([("coll_dict", dict(names=names)) for _, names, _, _ in cases])
+    for (rec, names, per_row, real), m in zip(cases, model):
+        out["evaluations"] += 1
+        bump(out, "path", "coll_dict")
+        bump(out, "coll_rich", f"{rec['kind']}:{len(names)} rows:{'history' if rec.get('ops') else 'fresh'}")
+        want = dict(keys=m["keys"], entries=[per_row[i] for i in m["rows"]], back_names=[names[i] for i in m["rows"]])
+        if want != real:
+            fld = next(k for k in want if want[k] != real[k])
+            add_failure(out, "corr", f"collection rich dict differs from the per-row model at {fld}", dict(recipe=rec), want[fld] if fld != "entries" else "(per-row dicts)", real[fld] if fld != "entries" else "(differs)", confirmed=False)
+        elif len(names) > 1:
+            out["nontrivial"].add(("coll_dict", _canon(rec)))
+
+
+def get_class_corr(ctx, out):
+    """translated `_get_class` vs the real one: the real function runs with `import_module` replaced by a recorder, so the split
+    (module string, attribute name) is observed on ANY string, not only on importable ones"""
+    from unittest import mock
+
+    from cogent3.util import deserialise
+
+    rng = ctx.subrng("getclass")
+    info = ctx.driver.batch([("registry", {})])[0]
+    types = [e["type"] for e in info["emitted"]]
+    parts = ["cogent3", "core", "app", "x", "NotCompleted", "OldNotCompletedResult", "Table", "a_b", "", "Seq2"]
+    for _ in range(250):
+        k = rng.randrange(0, 5)
+        types.append(rng.choice(["", "."]) * (rng.random() < 0.15) + ".".join(rng.choice(parts) for _ in range(k)) + rng.choice(["", "", ".", ".NotCompletedX"]))
+
+    class Rec:
+        def __init__(self, name):
+            self._n = name
+
+        def __getattr__(self, a):
+            return (object.__getattribute__(self, "_n"), a)
+
+    model = ctx.driver.batch([("get_class", dict(types=types))])[0]
+    for t, m in zip(types, model):
+        with mock.patch.object(deserialise, "import_module", lambda name: Rec(name)):
+            try:
+                real = list(deserialise._get_class(t))
+            except AssertionError:
+                real = {"err": "AssertionError"}
+            except Exception as e:
+                real = {"err": type(e).__name__}
+        out["evaluations"] += 1
+        bump(out, "path", "get_class")
+        bump(out, "get_class", "assert" if isinstance(real, dict) else ("NotCompleted" if real[1] == "NotCompleted" and not t.endswith(".NotCompleted") else "split"))
+        if real != m:
+            add_failure(out, "corr", "translated _get_class differs from the implementation", dict(provenance=t), m, real, confirmed=False)
+        elif t.count(".") >= 1:
+            out["nontrivial"].add(("get_class", t))
